@@ -82,6 +82,12 @@ class Walk:
                 elif "dc" in e:
                     if v[0] == "adt" and v[2] != str(e["dc"]) and not str(e["dc"]).isdigit():
                         return TOP
+                elif "idx" in e or "cidx" in e:
+                    i = env.get(e["idx"], TOP) if "idx" in e else const(e["cidx"])
+                    if v[0] == "list" and is_const(i) and isinstance(i[1], int) and 0 <= i[1] < len(v[1]):
+                        v = v[1][i[1]]
+                    else:
+                        return TOP
                 else:
                     return TOP
             else:
@@ -102,8 +108,10 @@ class Walk:
                 return const(k["int"])
             if "fn" in k:
                 return ("fn", k["fn"])
-            if "promoted" in k and k.get("uneval"):
+            if k.get("promoted") is not None and k.get("uneval"):
                 return self._promoted("%s::{promoted#%s}" % (k["uneval"], k["promoted"]))
+            if k.get("uneval"):
+                return self._promoted(k["uneval"])      # a named constant: its (straight-line) initialiser
         return TOP
 
     def _promoted(self, pid):
@@ -114,7 +122,7 @@ class Walk:
             return cache[pid]
         pb = self.ctx.facts.bodies.get(pid)
         val = TOP
-        if pb is not None and len([x for x in pb.blocks if not x["cleanup"]]) <= 2:
+        if pb is not None and len([x for x in pb.blocks if not x["cleanup"]]) <= 2 and not any(b_["term"] and b_["term"]["k"] == "call" for b_ in pb.blocks):
             env = {}
             sub = Walk(self.ctx, pb, [])
             for blk in pb.blocks:
@@ -159,7 +167,7 @@ class Walk:
             return TOP
         if k == "cast":
             v = self.operand(env, rv["op"])
-            return v if v[0] in ("const", "sym", "ref") else TOP
+            return v if v[0] in ("const", "sym", "ref", "list", "adt", "tuple") else TOP
         if k == "discr":
             v = self.read_place(env, rv["place"])
             if v[0] == "adt" and isinstance(v[3], int):
@@ -203,7 +211,10 @@ class Walk:
             if kind == "tuple":
                 return ("tuple", tuple(self.operand(env, o) for o in rv["ops"]))
             if kind in ("closure", "coroutine"):
-                return ("closure", rv.get("path"))
+                names = [str(x) for x in (rv.get("fields") or [])]
+                return ("closure", rv.get("path"), tuple(("upvar:" + n, self.operand(env, o)) for n, o in zip(names, rv["ops"])))
+            if kind == "array":
+                return ("list", tuple(self.operand(env, o) for o in rv["ops"]))
             return TOP
         return TOP
 
